@@ -55,7 +55,7 @@ class Result:
 def world_truth_outputs(world, plan, prog, now):
     """Outputs that have actually happened in the world by time ``now``."""
     out = {}
-    for key, job in world.jobs.items():
+    for key, job in list(world.jobs.items()) + list(world.superseded):
         pstr, name, nn = key
         try:
             p = prog.ppoint(pstr)
@@ -207,9 +207,12 @@ class CommandDriver(Monitor):
                     c['iter'] < it)
             if due:
                 c['done'] = True
+                pooled = frozenset(
+                    i.identity for i in h.schd.pool.get_tasks()
+                ) if hasattr(h.schd, 'pool') else frozenset()
                 r = inject_command(h, c['name'], c['kwargs'])
                 self.done.append((CLOCK.t, h.incarnation, it, c['name'],
-                                  c['kwargs'], r))
+                                  c['kwargs'], r, pooled))
 
 
 def snapshot(h):
